@@ -369,6 +369,26 @@ Fixpoint spec_glob (t : tree) (rp : list cpat) : option (list path) :=
   | c :: rps => match spec_glob t rps with Some m => glob_each t c m | None => None end
   end.
 
+(* ---------- OPEN (os.OpenFile on the server; Client.Create is OpenFile with O_RDWR|O_CREATE|O_TRUNC): what it does to the name
+   space. wr: write access asked for (O_WRONLY / O_RDWR / O_TRUNC); a symbolic link as the last component would be followed
+   (or refused under O_EXCL): not modelled. ---------- *)
+Definition p_open (creat excl wr : bool) (t : tree) (p : path) : option (cat * tree) :=
+  match p with
+  | [] => None
+  | _ =>
+    match parent_look t p with
+    | LUndef => None | LNoEnt => Some (TNotExist, t) | LNotDir => Some (TOther, t)
+    | LKind KFile | LKind KLink => Some (TOther, t)
+    | LKind KDir =>
+      match kind_at t p with
+      | None => if creat then Some (TOk, t ++ [(p, KFile)]) else Some (TNotExist, t)
+      | Some KLink => None
+      | Some KDir => if wr || creat then Some (TOther, t) else Some (TOk, t)       (* EISDIR *)
+      | Some KFile => if creat && excl then Some (TOther, t) else Some (TOk, t)     (* EEXIST *)
+      end
+    end
+  end.
+
 (* well-formed trees: every path once, no entry for the root, the parent of every entry is a directory *)
 Definition wf (t : tree) : Prop :=
   NoDup (map fst t) /\ forall p k, In (p, k) t -> p <> [] /\ kind_at t (removelast p) = Some KDir.
